@@ -496,6 +496,14 @@ def build_initial(ad, case, U):
             seen.add(k)
             recs.append(r)
     ws = metas = None
+    if recs and weighted and init["weights"] is not None:
+        # the duplicate test of a weighted batch is only specified for exact repeats
+        toks, uniq = set(), []
+        for r in recs:
+            if ad.batch_dup_token(r) not in toks:
+                toks.add(ad.batch_dup_token(r))
+                uniq.append(r)
+        recs = uniq
     if recs:
         if weighted and init["weights"] is not None:
             ws = (init["weights"] * len(recs))[: len(recs)]
@@ -548,6 +556,14 @@ def check_against_model(ad, h, model, U, probes, step_desc):
     return obs
 
 
+def _unchanged(ad, h, U, probes, cur_obs, desc):
+    """Derivations (snapshots, aggregation, overlap...) must not change the object."""
+    d = diff_obs(cur_obs, full_obs(ad, h, U, probes))
+    if d is not None:
+        raise Violation("derived-object queries after %s changed the object itself: %s"
+                        % (desc, d), key="derivation-mutates")
+
+
 def check_history(ad, case, ctx):
     U = case["universe"]["labels"]
     h, model, desc0 = build_initial(ad, case, U)
@@ -562,6 +578,8 @@ def check_history(ad, case, ctx):
     ctx.trace = trace
     frozen = []  # (object, model, obs) of originals left behind by copy()
     cur_obs = check_against_model(ad, h, model, U, probes, "construction")
+    if ad.extra_checks(h, model, U, -1, ctx, final=False):
+        _unchanged(ad, h, U, probes, cur_obs, "construction")
     seen_removal = inserted_after = reinsertion = False
     n_reject = 0
     for step, aop in enumerate(case["ops"]):
@@ -637,12 +655,10 @@ def check_history(ad, case, ctx):
             if d is not None:
                 raise Violation("%s on a copy changed the original: %s" % (desc, d),
                                 key="copy-aliasing")
-        ad.extra_checks(h, model, U, step, ctx, final=False)
+        if ad.extra_checks(h, model, U, step, ctx, final=False):
+            _unchanged(ad, h, U, probes, cur_obs, desc)
     ad.extra_checks(h, model, U, len(case["ops"]), ctx, final=True)
-    # derivations must not have changed anything
-    d = diff_obs(cur_obs, full_obs(ad, h, U, probes))
-    if d is not None:
-        raise Violation("derived-object queries changed the object: %s" % d, key="derivation-mutates")
+    _unchanged(ad, h, U, probes, cur_obs, "the end of the history")
     if frozen:
         ctx.label("has_copy")
     if n_reject:
